@@ -16,14 +16,53 @@ GROUPS = {
     "C02": {"snap", "query", "query_state"},
     "C03": {"vec", "algo"},
     "C09": {"counts"},
-    "C15": {"derive", "derive_src"},
+    # the derived graph must itself satisfy C01-C03: its snapshot and query table are judged too
+    "C15": {"derive", "derive_src", "derived_snap", "derived_vec", "derived_query"},
 }
 
 # trace shapes per property and tier: gv mut arguments
 PLANS = {
     ("C01", "quick"): dict(ex="3:2:-1,2:3:-1", random=150, rk=5, rlen=30, rq=0, snap=0, shards=16, walks=60, mc="MCGraphMachine.cfg"),
     ("C01", "thorough"): dict(ex="3:3:-1", random=3000, rk=5, rlen=30, rq=0, snap=0, shards=96, walks=1500, mc="MCGraphMachine_thorough.cfg"),
+    # C02: every state of the depth<=2 forest over 3 names (+1 absent name) is asked the full read-API table,
+    # and the private indexes are snapshotted after every mutation
+    ("C02", "quick"): dict(ex="3:2:2", random=40, rk=4, rlen=16, rq=2, snap=1, shards=16, mc="StoreMachine.cfg"),
+    ("C02", "thorough"): dict(ex="3:2:2,2:3:3", random=400, rk=5, rlen=24, rq=3, snap=1, shards=96, mc="StoreMachine_thorough.cfg"),
+    ("C03", "quick"): dict(ex="3:2:-1,2:3:-1", random=150, rk=5, rlen=30, rq=0, snap=1, shards=16, mc="StoreMachine.cfg", dups=1500),
+    ("C03", "thorough"): dict(ex="3:3:-1", random=2000, rk=5, rlen=30, rq=0, snap=1, shards=96, mc="StoreMachine_thorough.cfg", dups=30000),
+    ("C15", "quick"): dict(ex="3:1:1,2:2:2", random=30, rk=4, rlen=14, rq=2, snap=1, shards=16, mc="MCDerive.cfg", derive=1),
+    ("C15", "thorough"): dict(ex="3:2:1,2:3:1", random=300, rk=5, rlen=20, rq=2, snap=1, shards=96, mc="MCDerive_thorough.cfg", derive=1),
+    ("C09", "quick"): dict(ex="3:2:2", random=60, rk=4, rlen=16, rq=2, snap=0, shards=16, mc="MCCounts.cfg"),
+    ("C09", "thorough"): dict(ex="3:2:2,2:3:3", random=600, rk=5, rlen=24, rq=3, snap=0, shards=96, mc="MCCounts_thorough.cfg"),
 }
+
+MC_MODULE = {"C01": "MCGraphMachine.tla", "C02": "StoreMachine.tla", "C03": "StoreMachine.tla", "C09": "MCCounts.tla", "C15": "MCDerive.tla"}
+MC_PROPS = {
+    "C01": ["InvWellFormed", "RejectedChangesNothing", "NamesOnlyAppend", "SpecsNeverChange", "EdgesMonotone"],
+    "C02": ["SameOutcome", "InvCoherent"],
+    "C03": ["InvAdjMatches", "SameOutcome"],
+    "C09": ["InvHandshake", "InvDirectedDegrees", "InvMatrix"],
+    "C15": ["InvSubgraph", "InvSubgraphAll", "InvReverse", "InvReweight", "InvCollapse"],
+}
+EXPLAIN = {
+    "C15": "TLC checks on every reachable state of the mutation machine (all 96 GraphSpecs) that Subgraph / Reverse / Reweight / Collapse "
+           "give well-formed graphs, that reverse is an involution, that subgraphs nest and that collapsing preserves weight; on recorded "
+           "executions every derive call from every state of the forest (get_subgraph for every subset of the names + an absent name, "
+           "reverse, set_all_edge_weights(NaN / 7), to_single_edges) is compared with the specification, the source graph is re-projected "
+           "and must be unchanged, and the derived graph's indexes and read-API table are validated as for C02/C03.",
+    "C02": "TLC checks on the implementation-shaped store machine (all 96 GraphSpecs) that the twelve indexes always describe the abstract "
+           "state; on recorded executions TLC compares, for every state of the forest, the complete read-API table (every ordered pair, "
+           "every node, every subset of the name universe incl. an absent name) with GraphQuery, and the hook snapshot of the private "
+           "indexes with the derived store.",
+    "C03": "TLC checks on the store machine that the traversal lists hold exactly the stored neighbours with the least stored weight "
+           "(uniformly weighted / unweighted histories); recorded snapshots of successors_vec/predecessors_vec are compared with the "
+           "abstract state after every mutation, and weighted Dijkstra / betweenness / closeness answers on duplicate-insertion "
+           "histories are compared with Paths/Centrality evaluated on the logged get_all_edges() alone.",
+    "C09": "TLC checks the handshake identities and the adjacency-matrix facts on every reachable state of the mutation machine; on "
+           "recorded executions every count, degree, density, degree-centrality and matrix answer is compared with its definition and "
+           "the identities are evaluated on the library's own numbers.",
+}
+
 
 
 def model_check(cfg, module, work, workers=12, timeout=3000):
@@ -48,7 +87,7 @@ def gen_traces(gv, plan, work, extra=None):
         out = work.path("trace%02d.ndjson" % i)
         args = ["mut", "--out", out, "--from", a, "--to", b, "--ex", plan["ex"], "--random", plan["random"],
                 "--rk", plan["rk"], "--rlen", plan["rlen"], "--rq", plan["rq"], "--snap", plan["snap"],
-                "--seed", seed()]
+                "--seed", seed(), "--derive", plan.get("derive", 0)]
         if extra:
             args += extra
         jobs.append((out, args))
@@ -83,11 +122,8 @@ def judge(prop, verdict, traces, results):
                 ev = evs[eid]
                 small = {k: ev.get(k) for k in ("op", "res", "post", "uniform", "panic")}
                 what = "%s/%s on %s after op %s" % (group, c, (ev.get("post") or {}).get("specs"), json.dumps(ev["op"])[:200])
-                if len(verdict.violations) < 25 or match_known(verdict.kf, prop, group, c, ev):
-                    robj = replay_obj_for(prop, trace, eid, group, [c]) if not match_known(verdict.kf, prop, group, c, ev) else {}
-                    verdict.nonconf(group, c, small, what, robj)
-                else:
-                    verdict.violations.append((what, verdict.violations[0][1]))
+                robj = replay_obj_for(prop, trace, eid, group, [c]) if verdict.wants_replay(group, c, small) else {}
+                verdict.nonconf(group, c, small, what, robj)
     return fails
 
 
@@ -188,3 +224,61 @@ def replay_mut(prop, gv, work, verdict, replay):
         return 1
     print("replay: history conforms")
     return 0
+
+
+def run_family(prop, tier, replay=None):
+    """C02, C03, C09: same pipeline as C01 with other trace shapes, models and deciding groups."""
+    t0 = time.time()
+    work = Work(prop)
+    verdict = Verdict(prop)
+    try:
+        gv = build_harness()
+        if replay:
+            r = json.load(open(replay))
+            if r.get("kind") == "algo":
+                import checks_algo
+                return checks_algo.replay_algo(prop, gv, work, replay, GROUPS[prop])
+            return replay_mut(prop, gv, work, verdict, replay)
+        plan = PLANS[(prop, tier)]
+        mc = model_check(plan["mc"], MC_MODULE[prop], work)
+        traces, nev, counts = gen_traces(gv, plan, work)
+        log("recorded %d events in %d shards: %s" % (nev, len(traces), counts))
+        results, distinct, generated = monitor_shards("MonitorMut", traces, work.dir)
+        fails = judge(prop, verdict, traces, results)
+        extra = {}
+        if prop == "C03":
+            import checks_algo
+            info = checks_algo.run_cases(prop, gv, work, verdict, suite="weighted", grid=0, groups=GROUPS[prop],
+                                         gen=[("dups", plan["dups"], 2, 5, 0)], families=[], nshards=NCPU)
+            distinct += info["states"]
+            generated += info["transitions"]
+            extra = {"algorithm_level": info}
+        samples = []
+        with open(traces[0]) as f:
+            for i, line in enumerate(f):
+                if i in (3, 60, 500):
+                    e = json.loads(line)
+                    samples.append({k: e[k] for k in ("parent", "op", "res", "post") if k in e})
+        roots = counts.get("new", 0) + counts.get("new_from", 0)
+        cov = {
+            "states": mc["distinct"] + distinct,
+            "transitions": mc["generated"] + generated,
+            "traces_validated_against_impl": roots + extra.get("algorithm_level", {}).get("cases", 0),
+            "samples": samples,
+            "exhaustive": True,
+            "model_checking": {"module": MC_MODULE[prop], "config": plan["mc"], "distinct_states": mc["distinct"],
+                               "states_generated": mc["generated"], "specs": 96, "properties": MC_PROPS[prop]},
+            "direction1": {"events_monitored": nev, "event_kinds": counts, "monitor_states": distinct, "plan": plan,
+                           "deciding_groups": sorted(GROUPS[prop]),
+                           "failed_checks": {"%s/%s" % k: v for k, v in fails.items()}},
+            "explanation": EXPLAIN[prop],
+        }
+        cov.update(extra)
+        rc = verdict.finish()
+        write_evidence(prop, tier, "model_checking", cov, time.time() - t0, len(verdict.violations),
+                       ["TLC 1.8.0 and the Json/IOUtils community modules", "harness projection and canonicalisation (harness/src/model.rs, query.rs)",
+                        "hook Graph::verif_snapshot copies the private indexes faithfully",
+                        "names are i32, weights small integers or NaN, attributes i32 tags"])
+        return rc
+    finally:
+        work.close()
